@@ -24,3 +24,25 @@ def emit(run, ex, fq, hyps=(), rp=None, extra_meta=None):
 
 def frame_goal(q, H0, except_=()):
     return z3.And(*[q.heap[k] == H0[k] for k in q.heap if k not in except_])
+
+
+def split_invariants(ex):
+    """one obligation per conjunct of a loop invariant (flattening nested conjunctions): much easier for the solver than the conjunction, and a
+    failing clause is named individually"""
+    import z3 as _z3
+
+    def flat(g):
+        if _z3.is_and(g):
+            out = []
+            for c in g.children():
+                out += flat(c)
+            return out
+        return [g]
+    out = []
+    for nm, pc, goal, meta in ex.obls:
+        parts = flat(goal) if "/inv." in nm else [goal]
+        if len(parts) > 1:
+            out += [(f"{nm}&{j}", pc, g, meta) for j, g in enumerate(parts)]
+        else:
+            out.append((nm, pc, goal, meta))
+    ex.obls = out
